@@ -167,7 +167,8 @@ class Variable:
 
         # Result of 'variable[level]' is always binary
         if self.is_response and self.reference is not None:
-            value = np.where(x == self.reference, 1, 0)
+            # The level comes from the formula text: compare with the levels as they are printed
+            value = np.where(np.asarray(x.astype(str)) == str(self.reference), 1, 0)
         else:
             # Treatment encoding by default
             treatment = Treatment()
